@@ -763,7 +763,23 @@ impl Session {
             self.general_channels.broad.subscribe(),
         );
 
-        let job = tokio::spawn(async move { peer_handler.run_outgoing(socket).await });
+        // When recording: note what connection task was configured with, do not serve socket
+        #[cfg(feature = "verif")]
+        let recording = match self.verif_spawned.as_mut() {
+            Some(log) => {
+                log.push("peer");
+                self.verif_spawn_args.push(peer_handler.verif_identity());
+                true
+            }
+            None => false,
+        };
+        #[cfg(not(feature = "verif"))]
+        let recording = false;
+
+        let job = match recording {
+            true => tokio::spawn(async {}),
+            false => tokio::spawn(async move { peer_handler.run_outgoing(socket).await }),
+        };
 
         self.log("New peer connect from: ".to_string() + &addr.as_str())
             .await;
@@ -847,6 +863,11 @@ impl Session {
         let job = tokio::spawn(async {});
         let peer = Peer::new(id, self.metainfo.pieces_num(), job);
         self.peers.insert(addr.to_string(), peer);
+    }
+
+    /// An incoming connection reaches the listener branch of the event loop.
+    pub async fn verif_accept(&mut self, socket: TcpStream) {
+        self.spawn_peer_listener(socket).await
     }
 
     pub async fn verif_handle(&mut self, cmd: PeerCmd) -> Result<bool, Error> {
